@@ -124,6 +124,24 @@ def run(ctx):
         r.check(any(c.name == "remove" and describe_operand(sq, c.args[0]).endswith("queue") for c in sq.calls) and any(c.name == "position" for c in sq.calls), "SyncQueue::remove/removes-position", where(sq),
                 "SyncQueue::remove deletes the key's position from the snapshot")
 
+        # ... and only then: a key leaves a pending snapshot when its live event is *emitted*, never earlier (e.g. when the operation is
+        # queued): otherwise the snapshot runs empty while the events that replaced its keys are still waiting, and Synced overtakes them
+        n = 0
+        for b in ag.all_bodies():
+            for c in b.calls:
+                if c.name == "update_sync_queues" and len(c.args) == 2:
+                    n += 1
+                    ctx.saw(b)
+                    popped = [x for x in b.derives_from_call(c.args[1], lambda x: x.is_method("event_queue::EventQueue", "pop"))]
+                    r.check(bool(popped), "%s/update_sync_queues/only-for-a-popped-event" % owner_def(b).split("::")[-1], c.loc(), "the action passed is the one just taken from the event queue",
+                            "%s drops snapshot keys for an operation that has not been emitted yet (`%s`): the snapshot can run empty, and `synced` be sent, while the events that superseded its keys are still queued - at synced the replica lacks keys the lane held all along" % (
+                                owner_def(b).replace("swimos_agent::", ""), describe_operand(b, c.args[1])[:50]))
+                elif (c.is_method("lanes::queues::SyncQueue", "remove") or c.is_method("lanes::queues::SyncQueue", "clear")) and "queues::" in b.defpath:
+                    home = owner_def(b).split("::")[-1]
+                    r.check(home in ("update_sync_queues",), "%s/SyncQueue::%s/only-in-update_sync_queues" % (home, c.name), c.loc(), "snapshot keys are dropped only by update_sync_queues",
+                            "%s edits a pending snapshot directly (SyncQueue::%s)" % (owner_def(b).replace("swimos_agent::", ""), c.name))
+        r.check(n >= 1, "update_sync_queues/call-sites", "-", "%d call site(s) of update_sync_queues" % n)
+
     with ctx.rule("C03.R4", "T2", "an exhausted snapshot yields Synced(its id); map sync snapshots and registers keys in one synchronous step", floor=3) as r:
         pop = ag.fn(name="pop", self_adt="lanes::queues::WriteQueues", kind="AssocFn", regex=r"WriteQueues::<K>::pop$")
         syn = aggregates(pop, "lanes::queues::ToWrite", "Synced")
